@@ -18,6 +18,9 @@ type setterOp struct {
 	I   int             `json:"i"`
 	X   json.RawMessage `json:"x"`
 	Bit bool            `json:"bit"`
+
+	Parent string `json:"parent"`
+	Mask   string `json:"mask"`
 }
 
 // xInts: the value argument as little-endian bytes (booleans as one byte)
@@ -43,13 +46,37 @@ type setterEmit struct {
 	StartTL1 []int      `json:"startTL1"`
 	Ops      []setterOp `json:"ops"`
 	Obs      struct {
-		IsSet  map[string]bool   `json:"isset"`
-		Names  map[string]string `json:"names"`
-		TL1    []int             `json:"tl1"`
-		HasTL2 bool              `json:"hastl2"`
-		TL2    []int             `json:"tl2"`
-		JSON   *JT               `json:"json"`
+		IsSet  boolMap `json:"isset"`
+		Names  strMap  `json:"names"`
+		Nested []struct {
+			Parent string `json:"parent"`
+			F      string `json:"f"`
+			Set    bool   `json:"set"`
+		} `json:"nested"`
+		TL1    []int `json:"tl1"`
+		HasTL2 bool  `json:"hastl2"`
+		TL2    []int `json:"tl2"`
+		JSON   *JT   `json:"json"`
 	} `json:"obs"`
+}
+
+// TLC renders a function with an empty domain as [] rather than {}
+type boolMap map[string]bool
+type strMap map[string]string
+
+func (m *boolMap) UnmarshalJSON(b []byte) error {
+	*m = boolMap{}
+	if len(b) > 0 && b[0] == '[' {
+		return nil
+	}
+	return json.Unmarshal(b, (*map[string]bool)(m))
+}
+func (m *strMap) UnmarshalJSON(b []byte) error {
+	*m = strMap{}
+	if len(b) > 0 && b[0] == '[' {
+		return nil
+	}
+	return json.Unmarshal(b, (*map[string]string)(m))
 }
 
 // runC43: every accessor-call sequence enumerated by TLC (MC_Setters) is replayed through the
@@ -98,14 +125,22 @@ func runC43(c *core.Ctx) error {
 				}
 				var desc []string
 				for _, o := range e.Ops {
-					steps = append(steps, map[string]any{"op": o.Op, "name": o.F, "x": o.xInts()})
-					desc = append(desc, fmt.Sprintf("%s(%s,%s)", o.Op, o.F, hexs(o.xInts())))
+					steps = append(steps, map[string]any{"op": o.Op, "name": o.F, "x": o.xInts(), "parent": o.Parent, "mask": o.Mask})
+					if o.Parent != "" {
+						desc = append(desc, fmt.Sprintf("%s.%s(%s,%s,mask=%q)", o.Parent, o.Op, o.F, hexs(o.xInts()), o.Mask))
+					} else {
+						desc = append(desc, fmt.Sprintf("%s(%s,%s)", o.Op, o.F, hexs(o.xInts())))
+					}
 				}
 				var names []string
 				for _, nm := range e.Obs.Names {
 					names = append(names, nm)
 				}
-				steps = append(steps, map[string]any{"op": "isset", "names": names}, map[string]any{"op": "dump"})
+				var pairs [][]string
+				for _, ne := range e.Obs.Nested {
+					pairs = append(pairs, []string{ne.Parent, ne.F})
+				}
+				steps = append(steps, map[string]any{"op": "issetn", "pairs": pairs}, map[string]any{"op": "isset", "names": names}, map[string]any{"op": "dump"})
 				r, err := b.script(e.Tn, bytesVariant, steps...)
 				if err != nil {
 					firstErr = err
@@ -132,8 +167,14 @@ func runC43(c *core.Ctx) error {
 					continue
 				}
 				iss := r.Steps[len(r.Steps)-2]
+				issn := r.Steps[len(r.Steps)-3]
 				d := r.Steps[len(r.Steps)-1].Dump
 				var bad []string
+				for _, ne := range e.Obs.Nested {
+					if got, ok := issn.IsSet[ne.Parent+"."+ne.F].(bool); ok && got != ne.Set {
+						bad = append(bad, fmt.Sprintf("%s.IsSet(%s) = %v, model %v", ne.Parent, ne.F, got, ne.Set))
+					}
+				}
 				for idx, nm := range e.Obs.Names {
 					want := e.Obs.IsSet[idx]
 					got, ok := iss.IsSet[nm].(bool)
@@ -192,6 +233,6 @@ func runC43(c *core.Ctx) error {
 	}
 	c.Add("traces_validated_against_impl", 0)
 	c.Set("rule", "every sequence of <= K SetX/ClearX calls over the eligible fields of every top-level struct, from the default object and from the object with every eligible field set; a case = one distinct call sequence replayed on a real object (string and []byte variants)")
-	c.Assume("eligible fields: optional fields of primitive / true type under a local unmasked # field with an unshared bit, or TL2 optional fields; outer-parameter masks, mask chains and shared bits are excluded (shared bits couple siblings by the format)")
+	c.Assume("eligible fields: optional fields of primitive / true type under a local unmasked # field with an unshared bit, TL2 optional fields, and fields of a directly nested struct whose mask is an outer parameter fed by a # field of the parent (accessors called with &parent.mask and with a nil mask pointer); mask chains and shared bits are excluded (shared bits couple siblings by the format)")
 	return nil
 }
